@@ -170,6 +170,20 @@ def run(ctx, R):
         need = {"Fixnum", "Integer", "Rational"}
         R.ob("C05:consumer:%s:cross-representation-arms" % meth, need <= vs,
              "%s matches Number::%s; all of %s are needed to compare a cell with an equal value in another encoding" % (meth, sorted(vs), sorted(need)), F.where(fn))
+    # Number::cmp / Number::eq compare the two VALUES in every pair of exact representations (a shortcut
+    # such as "a big integer is always outside the fixnum range" is wrong for non-normalised cells);
+    # the obligations are computed by the C04 rule and re-keyed here.
+    from . import c04
+    from .core import Result
+    sub = Result("C04")
+    c04.run(ctx, sub)
+    n_pairs = 0
+    for k, ok, d, w in sub.obligations:
+        m = re.match(r"C04:Number::(cmp|eq):pair:(Fixnum|Integer|Rational)-(Fixnum|Integer|Rational):compares-both-values$", k)
+        if m:
+            n_pairs += 1
+            R.ob("C05:consumer:Number::%s:%s-%s:compares-values" % m.groups(), ok, d, w)
+    R.floor("exact representation pairs in Number::cmp/eq", n_pairs, 18)
     # constant_key_alternatives: fixnum spelling for Integer and integral Rational literals
     ck = F.find("indexing::constant_key_alternatives")
     h = F.hir(ck)
